@@ -171,6 +171,15 @@ def run_one(seed, tape, opts):
                                  t_conn)
     sim.run(20000, max_time=horizon + 1)
     watch()
+    adopted = [None, 0.0]
+    if regime == "silent" and drop_time[0] is not None:
+        # the path is fine for new connections: the next generation's
+        # connection must be taken into use by the Leader as well
+        sim.run(20000, until=lambda: L.m._connection not in
+                (None, first_conn) and F.m._connection is not None,
+                max_time=4 * interval)
+        if F.m._connection is not None and L.m._connection is None:
+            adopted[0], adopted[1] = False, sim.now() - drop_time[0]
     w.finish()
     t_last = max(x for x in rx_times)
     if regime == "silent":
@@ -193,6 +202,12 @@ def run_one(seed, tape, opts):
               "new generation is started",
               "generation counter %d, messages %r" %
               (L.m._next_dilation_generation, [ph for ph, _ in L.send.sent]))
+        elif adopted[0] is False:
+            V("C16.replacement_not_adopted", "a new generation is started "
+              "(and monitoring resumes on the next connection)",
+              "interval %.1f: the monitor dropped the silent connection; %.1f "
+              "s later the Follower is connected again but the Leader has no "
+              "connection in use" % (interval, adopted[1]))
     elif regime == "slow":
         if drop_time[0] is None:
             V("C16.slow_not_dropped", "a peer that does not answer for more "
